@@ -20,7 +20,8 @@ META = {
                   "blocked actor must be one the model still has queued without deadline.",
     "level_note": "S4U API only: the model-checker leg (all interleavings) of the design is not built. A release exactly at a deadline is a tie the "
                   "statement leaves open: the model takes the answer the call gave and requires the rest of the history to agree. Negative timeouts "
-                  "are not generated (undocumented). A killed waiter is required to stop waiting (later tokens go to the others / to the capacity); "
+                  "are not generated (acquire() itself is acquire_timeout(-1): negative means no timeout); a zero timeout is a timeout "
+                  "(nothing documents 0 as 'forever', ActivityImpl::wait_for treats 0 as an immediate timeout, and the statement has no exception). A killed waiter is required to stop waiting (later tokens go to the others / to the capacity); "
                   "histories where a killed actor still issues a request in the round of its death are not judged.",
     "rule": "case = one scenario (capacities + per-actor scripts); non-trivial = distinct scenarios, fully checked, in which >=1 acquire had to wait "
             "or a timeout fired",
@@ -73,8 +74,7 @@ def run(ctx):
     for fl in ("hooks", "asan"):
         G.exe(fl)
     j = lambda fl, sc, res, out: judge(ctx, fl, sc, res, out)
-    G.run_all(ctx, "hooks", scs, 20, j)
-    G.run_all(ctx, "asan", scs[: len(DIRECTED) + max(24, n // 10)], 40, j)
+    G.run_many(ctx, [("asan", scs[: len(DIRECTED) + max(60, n // 10)], 70), ("hooks", scs, 20)], j)
 
 
 def replay(ctx, w):
